@@ -197,7 +197,7 @@ def main(tier):
         r0 = core.run_breadlog(built, box, cfg)
     T = max(0.02, r0.wall)
     ck.extra["async_clean_run_wall_s"] = round(T, 3)
-    n_async = 120 if tier == "quick" else 3000
+    n_async = 400 if tier == "quick" else 6000
     ajobs = []
     for i in range(n_async):
         ajobs.append((built, ck.seed, i, t.files, False, rnd.uniform(0.001, T * 1.05), rnd.choice(list(SIGS)), rnd.choice(["edit", "edit", "check"]), aexpected))
